@@ -1456,7 +1456,15 @@ pub fn c10(r: &mut Rng, out: &mut Out, n: usize) {
     while emitted < n {
         fam += 1;
         let f = any_frame(r);
-        let base = any_outline(r, 60);
+        let mut base = any_outline(r, 60);
+        // a third of the families are small outlines (areas well below 1, down to ~1e-3): the sign decisions of
+        // `set_area` must not depend on the magnitude of the area
+        if r.below(3) == 0 {
+            let k = r.pick(&[0.3, 0.1, 0.03]);
+            for q in base.iter_mut() {
+                *q = (q.0 * k, q.1 * k);
+            }
+        }
         let m = base.len();
         let variants = 2 + r.below(6);
         for k in 0..variants {
